@@ -47,7 +47,7 @@ def freshCtx : Ctx :=
 
 /-- `EntryContext.Reset` (the fields that matter: `err`, `startTime`, `StatNode`, `Input.reset()`, `RuleCheckResult.ResetToPass()`) -/
 def resetCtx (c : Ctx) : Ctx :=
-  { c with e := { c.e with batch := 1, args := [] }, start := 0, err := none, hasNode := false, blocked := false }
+  { c with e := { c.e with batch := 1, flag := 0, args := [], atts := [] }, start := 0, err := none, hasNode := false, blocked := false }
 
 def findP (l : List (Nat × PEnt)) (id : Nat) : Option PEnt :=
   match l with
@@ -64,6 +64,12 @@ def poolGet (p : PSt) (pick : Nat) : Nat × PSt :=
 def poolPut (p : PSt) (i : Nat) : PSt :=
   { p with store := p.store.set i (resetCtx (p.store.getD i freshCtx)), free := i :: p.free }
 
+/-- `ctx.Input` after `api.entry`'s assignments: `Args` / `Attachments` are assigned only when non-empty -/
+def inputOf (e : EntryOp) (pc : Ctx) : EntryOp :=
+  let a := if e.args.isEmpty then pc.e.args else e.args
+  let b := if e.atts.isEmpty then pc.e.atts else e.atts
+  { e with args := a, atts := b }
+
 /-- `api.Entry` with pooled context -/
 def apiEntry (fix : Bool) (p : PSt) (t : Nat) (e : EntryOp) (pick : Nat) : PSt :=
   match findP p.ents e.id with
@@ -74,7 +80,8 @@ def apiEntry (fix : Bool) (p : PSt) (t : Nat) (e : EntryOp) (pick : Nat) : PSt :
     let p1 := g.2
     let pc := p1.store.getD i freshCtx
     -- GetPooledContext stamps the start time; api.entry assigns Resource / BatchCount / (non-empty) Args
-    let c0 : Ctx := { pc with e := { e with args := if e.args.isEmpty then pc.e.args else e.args }, start := t }
+    -- (`Args` / `Attachments` only when the option list / map is non-empty: otherwise what `Reset` left)
+    let c0 : Ctx := { pc with e := inputOf e pc, start := t }
     let r := chainEntry fix p1.core c0 t
     let p2 := (p1.withCore r.1)
     let p3 := { p2 with store := p2.store.set i r.2.1 }
@@ -133,11 +140,11 @@ def obsWindow (p : PSt) (k : Key) (Iv now : Nat) : Option Bucket := (nodeOf p k)
 def obsConc (p : PSt) (k : Key) : Option Int := (nodeOf p k).map (·.conc)
 
 /-- `entry.Context().Err()` / `.Input.Args` of a live entry -/
-def obsCtx (p : PSt) (id : Nat) : Option (Option String × List String) :=
+def obsCtx (p : PSt) (id : Nat) : Option (Option String × EntryOp) :=
   match findP p.ents id with
   | some pe => if pe.exited then none else
       let c := p.store.getD pe.ctx freshCtx
-      some (c.err, c.e.args)
+      some (c.err, c.e)
   | none => none
 
 end Sentinel.EntryPool
